@@ -126,7 +126,11 @@ def _check_method(ctx, rule, name, row, flag_binding, depth):
             for pos in POS:
                 want = row[pos]
                 ctx.instance(rule)
-                if want in ("id", "new", "id|new") or want.startswith("keep"):
+                if want == "id|new":
+                    ctx.ob(rule, fi.qual, f"return self [{pos}]", _no_userinfo(s.facts),
+                           f"{name} returns self on a path where the authority is not known to be free of userinfo", where(fi, node),
+                           sample="identity under `no userinfo`")
+                elif want in ("id", "new") or want.startswith("keep"):
                     ok = True
                     if want.startswith("keep") or want == "":
                         pass
@@ -174,7 +178,20 @@ def _check_method(ctx, rule, name, row, flag_binding, depth):
             elif want == "new":
                 ctx.ob(rule, fi.qual, cons, True, where=where(fi, node), sample="replaced component (checked by K / F2)", nontrivial=False)
             elif want == "id|new":
-                ctx.ob(rule, fi.qual, cons, is_id or a[0] == "call", f"{name}: unexpected {pos} {show(a)[:60]}", where(fi, node), sample="id or re-assembled")
+                ok = a[0] == "call" or (is_id and _no_userinfo(s.facts))
+                ctx.ob(rule, fi.qual, cons, ok,
+                       f"{name} keeps the authority unchanged on a path where it is not known to be free of userinfo "
+                       "(`'@' not in authority`, or user and password both None): user/password survive", where(fi, node),
+                       sample="re-assembled from host and port, or identity under `no userinfo`")
+
+
+def _no_userinfo(facts):
+    for f in alternatives(facts):
+        at = truth(("cmp", "In", ("const", "@"), ("attr", S, "_netloc")), f) is False
+        both = truth(("cmp", "Is", ("attr", S, "raw_user"), NONE), f) is True and truth(("cmp", "Is", ("attr", S, "raw_password"), NONE), f) is True
+        if not (at or both):
+            return False
+    return True
 
 
 # F2 -----------------------------------------------------------------------------------------------------------------
